@@ -237,6 +237,7 @@ parts = [
         "final(self).seen@.len() > old(self).seen@.len() && !(req_first_seen(old(self), final(self)) is ExpectingReply) ==> (r matches Err(ZmqError::InvalidState(_))) && req_no_write(old(self), final(self))"),
        ("C10:recv_only_transition_is_ExpectingReply_to_ReadyToSend_atomically",
         "req_no_write(old(self), final(self)) || (req_one_write(old(self), final(self)) && final(self).log@.last().0 is ExpectingReply && final(self).log@.last().1 is ReadyToSend)"),
+       ("C02:KF_recv_never_hands_out_a_frame_that_says_MORE_while_keeping_nothing_of_the_rest", "r matches Ok(m) ==> !m.flags.more"),
        ("C10:partial_reply_keeps_expecting", "(r matches Ok(m) && m.flags.more) ==> req_no_write(old(self), final(self))"),
        ("C10:complete_reply_in_turn_returns_to_ReadyToSend",
         "(r matches Ok(m) && !m.flags.more) && final(self).seen@.len() >= old(self).seen@.len() + 2 && final(self).seen@.last() is ExpectingReply ==> req_one_write(old(self), final(self))"),
@@ -271,6 +272,8 @@ parts = [
        ("C10:failed_recv_changes_nothing", "r is Err ==> rep_no_write(old(self), final(self))"),
        ("C10:successful_recv_is_one_atomic_transition",
         "r is Ok ==> rep_one_write(old(self), final(self)) && final(self).log@.last().0 is ReadyToReceive && final(self).log@.last().1 is ReceivedRequest"),
+       # KNOWN FINDING: recv() hands out the first payload frame and drops the others (the socket keeps nothing of the message)
+       ("C02:KF_recv_never_hands_out_a_frame_that_says_MORE_while_keeping_nothing_of_the_rest", "r matches Ok(m) ==> !m.flags.more"),
      ],
      extra=REP_RULES),
   Fn(REP, "recv_multipart", impl=REP_IMPL, emit_impl="impl RepSocket", sig_sub=SELF_MUT, attrs=ATTRS, await_inv=AWAIT_REP,
@@ -306,4 +309,4 @@ parts = [
 
 # Scans only where a REGION is verified (REP send_multipart): for whole functions every access to the state is in the extracted text, and a form of
 # access the R6h rules do not know is a Verus error (undecided), never a silent pass.
-unit = Unit("reqrep", ["C10", "C09"], parts, safety_props=["C10"], notes="REQ/REP lock-step state machines under interference")
+unit = Unit("reqrep", ["C02", "C10", "C09"], parts, safety_props=["C10"], notes="REQ/REP lock-step state machines under interference")
